@@ -166,6 +166,14 @@ mod verif_harness {
         }
     }
     #[kani::proof]
+    fn l_compare_with_any_wide_value() {
+        // comparisons against the wide type agree with the underlying integers for EVERY wide value, not only JS-safe ones
+        let a: i64 = kani::any(); let w: i64 = kani::any();
+        if let Ok(x) = I54::try_from(a) { assert!(x.partial_cmp(&w) == Some(a.cmp(&w))); assert!((x == w) == (a == w)); }
+        let b: u64 = kani::any(); let v: u64 = kani::any();
+        if let Ok(y) = U53::try_from(b) { assert!(y.partial_cmp(&v) == Some(b.cmp(&v))); assert!((y == v) == (b == v)); }
+    }
+    #[kani::proof]
     fn l_constants() {
         assert!(u64::from(U53::MAX) == (1u64 << 53) - 1); assert!(u64::from(U53::MIN) == 0);
         assert!(i64::from(I54::MAX) == (1i64 << 53) - 1); assert!(i64::from(I54::MIN) == -((1i64 << 53) - 1));
@@ -271,6 +279,8 @@ fn main() {
             "u64" => check_u(args[3].parse().unwrap()), "i64" => check_i(args[3].parse().unwrap()),
             "pair_i64" => { let p: Vec<i64> = args[3].split(',').map(|x| x.parse().unwrap()).collect(); check_pair_i(p[0], p[1]) }
             "pair_u64" => { let p: Vec<u64> = args[3].split(',').map(|x| x.parse().unwrap()).collect(); check_pair_u(p[0], p[1]) }
+            "pair_i64_wide" => { let p: Vec<i64> = args[3].split(',').map(|x| x.parse().unwrap()).collect(); match I54::try_from(p[0]) { Ok(x) if x.partial_cmp(&p[1]) != Some(p[0].cmp(&p[1])) || (x == p[1]) != (p[0] == p[1]) => Some("comparison with a wide value disagrees".to_string()), _ => None } }
+            "pair_u64_wide" => { let p: Vec<u64> = args[3].split(',').map(|x| x.parse().unwrap()).collect(); match U53::try_from(p[0]) { Ok(x) if x.partial_cmp(&p[1]) != Some(p[0].cmp(&p[1])) || (x == p[1]) != (p[0] == p[1]) => Some("comparison with a wide value disagrees".to_string()), _ => None } }
             _ => widen() };
         if let Some(m) = m { out(&args[2], args[3].clone(), m); }
         println!("input passes"); return;
@@ -285,6 +295,10 @@ fn main() {
     for v in &us { if let Some(m) = check_u(*v) { out("u64", v.to_string(), m); } }
     for v in &is { if let Some(m) = check_i(*v) { out("i64", v.to_string(), m); } }
     let hi = (1i64 << 53) - 1;
+    for a in [-hi, -hi + 1, -1, 0, 1, hi - 1, hi] { for w in [i64::MIN, -hi - 1, -hi, 0, hi, hi + 1, i64::MAX] {
+        if let Ok(x) = I54::try_from(a) { if x.partial_cmp(&w) != Some(a.cmp(&w)) || (x == w) != (a == w) { out("pair_i64_wide", format!("{},{}", a, w), format!("I54 {} compared with the i64 {} disagrees with the underlying integers", a, w)); } }
+        if a >= 0 { let (b, v) = (a as u64, if w < 0 { u64::MAX } else { w as u64 }); if let Ok(y) = U53::try_from(b) { if y.partial_cmp(&v) != Some(b.cmp(&v)) || (y == v) != (b == v) { out("pair_u64_wide", format!("{},{}", b, v), format!("U53 {} compared with the u64 {} disagrees with the underlying integers", b, v)); } } }
+    } }
     for a in [-hi, -hi + 1, -1, 0, 1, hi - 1, hi] { for b in [-hi, -hi + 1, -1, 0, 1, hi - 1, hi] {
         if let Some(m) = check_pair_i(a, b) { out("pair_i64", format!("{},{}", a, b), m); }
         if a >= 0 && b >= 0 { if let Some(m) = check_pair_u(a as u64, b as u64) { out("pair_u64", format!("{},{}", a, b), m); } }
